@@ -18,3 +18,5 @@ import SkyllhModel.Props.C02
 import SkyllhModel.Props.C17
 import SkyllhModel.Props.C20
 import SkyllhModel.Props.C11
+import SkyllhModel.Props.C16
+import SkyllhModel.Props.C07
